@@ -7,7 +7,19 @@
 //! every accepted operation EVERY getter is compared with the model (enumerations as sets, no
 //! element twice, index-based access hits every element exactly once, one-past-the-end refused).
 //! Acceptance is predicted from the documented preconditions: duplicates and absent removals
-//! refused, documented capacity constants enforced exactly (seeds at limit-1).
+//! refused, documented capacity constants enforced exactly (seeds at limit-1). Observation is
+//! skipped after a refused call (the engine checks that the storage digest is unchanged).
+//!
+//! Worlds (names are stable):
+//!   claim-topics-and-issuers, claim-topics-and-issuers-at-limits (14 topics / 49 issuers),
+//!   claim-issuer-keys, claim-issuer-keys-at-limits (49 keys of a topic / 19 registries of a key),
+//!   token-binder, token-binder-bucket-edge (98/99/100 bound), token-binder-capacity (9 999 / 9 998),
+//!   documents, documents-bucket-edge (49/50/51 stored), documents-capacity (4 999 / 4 998),
+//!   identity-registry, identity-registry-country-limit (14 entries), identity-claims.
+//! The two capacity seeds cannot be built through the library inside the time budget (the library
+//! and the test host are quadratic there); they are assembled from storage entries and the
+//! assembly is validated against a state built through the library before the world is explored
+//! (`direct_seed_is_faithful`); if the validation fails the world is skipped with a note.
 #![allow(clippy::type_complexity)]
 
 use soroban_sdk::testutils::{Address as _, Ledger as _};
@@ -484,7 +496,7 @@ fn cti_worlds(tier: Tier) -> Vec<(Cti, usize)> {
                 probe_topics: vec![],
                 probe_issuers: vec![],
             },
-            tier.pick(5, 7),
+            tier.pick(5, 6),
         ),
         (
             Cti {
@@ -825,7 +837,7 @@ fn key_worlds(tier: Tier) -> Vec<(Keys, usize)> {
                 probe_regs: vec![],
                 with_invalid: true,
             },
-            tier.pick(5, 6),
+            5,
         ),
         (
             Keys {
@@ -834,8 +846,8 @@ fn key_worlds(tier: Tier) -> Vec<(Keys, usize)> {
                 keys: vec![0, 1],
                 topics: vec![1, 2],
                 regs: vec![0, 1],
-                probe_keys: vec![100, 148],
-                probe_regs: vec![100, 118],
+                probe_keys: vec![100],
+                probe_regs: vec![118],
                 with_invalid: false,
             },
             tier.pick(3, 4),
@@ -1226,12 +1238,12 @@ fn binder_worlds(tier: Tier) -> Vec<(Binder, usize)> {
         (
             Binder {
                 name: "token-binder-capacity",
-                seeds: vec![MAX_TOKENS - 2],
+                seeds: vec![MAX_TOKENS - tier.pick(1, 2)],
                 universe: vec![0, 1, 2],
                 batches: vec![vec![0, 1], vec![0, 1, 2]],
                 big: vec![],
                 full_index_scan_up_to: 0,
-                accepted_batches_below_depth: Some(tier.pick(0, 2)),
+                accepted_batches_below_depth: Some(tier.pick(0, 1)),
             },
             tier.pick(2, 3),
         ),
@@ -1735,14 +1747,14 @@ fn doc_worlds(tier: Tier) -> Vec<(Docs, usize)> {
         v.push((
             Docs {
                 name: "documents-capacity",
-                seeds: vec![MAX_DOCS - 2],
+                seeds: vec![MAX_DOCS - tier.pick(1, 2)],
                 universe: vec![0, 1, 2],
                 vars: vec![0],
                 uri_probes: false,
                 full_index_scan_up_to: 0,
                 snap: Default::default(),
             },
-            tier.pick(3, 4),
+            tier.pick(2, 4),
         ));
     }
     v
@@ -2477,5 +2489,14 @@ pub fn run(tier: Tier, r: &mut Runner) {
             "claims.remove_claim",
         ];
         rep.require(&both, &both);
+        rep.require_counter(&[
+            "getter-comparisons",
+            "accepted-at-limit",
+            "accepted-list-of-15-topics",
+            "refused.limit-exact",
+            "refused.duplicate-refused",
+            "refused.absent-removal-refused",
+            "refused.recovered-never-registered-again",
+        ]);
     }
 }
